@@ -241,6 +241,8 @@ type StepObs struct {
 	Inversion bool `json:"hpack_order_inversion,omitempty"`
 	SnapC     Snap `json:"snap_to_client"`
 	SnapS     Snap `json:"snap_to_server"`
+	// raw bytes (for the end-to-end replay through Config.Proxy)
+	Raw, RawToC, RawToS []byte `json:"-"`
 }
 
 // Case is one executed history.
@@ -374,6 +376,7 @@ func (s *Session) Do(o Op) bool {
 		}
 		r := s.rig.Step(o.From == "C", raw, 200000, 5*time.Second)
 		st.ToC, st.ToS = parseAll(r.ToClient), parseAll(r.ToServer)
+		st.Raw, st.RawToC, st.RawToS = raw, r.ToClient, r.ToServer
 		switch {
 		case r.Diverged:
 			st.Status = "Diverge"
